@@ -152,14 +152,14 @@ func (r *c13Runner) runLox(d dirState, mode string, report bool) (dirState, stri
 }
 
 func c13DirWorker(c *mc.Ctx, depth int) {
-	root, err := os.MkdirTemp(pipe.ScratchRoot(), "loxmc.c13.")
+	tmpRoot, err := os.MkdirTemp(pipe.ScratchRoot(), "loxmc.c13.")
 	if err != nil {
 		c.Stats.HarnessError("%v", err)
 		return
 	}
-	defer os.RemoveAll(root)
-	r := &c13Runner{bin: filepath.Join(root, "lox"), root: root}
-	if out, err := run("/repo", "go", "build", "-o", r.bin, "./cmd/lox"); err != nil {
+	defer os.RemoveAll(tmpRoot)
+	r := &c13Runner{bin: filepath.Join(tmpRoot, "lox"), root: tmpRoot}
+	if out, err := run(root.Repo(), "go", "build", "-o", r.bin, "./cmd/lox"); err != nil {
 		c.Stats.HarnessError("cannot build lox: %v: %s", err, out)
 		return
 	}
